@@ -246,3 +246,42 @@ Definition x_errs (xs : rxstate) : list (list T) := filter failed (x_done xs).
 End ReorderErrors.
 Arguments outcome : clear implicits.
 Arguments rxstate : clear implicits.
+
+(* ---- per-call contexts ----
+   ReorderFetcher.Add(ctx, x) and Flush(ctx) take the caller's context. The code does not consult it when it decides to flush:
+   batcher.Add, IsFull, batcher.Flush and buffer.Reserve run whatever its state; flush only hands it on to the fetch goroutine,
+   `d.fetchBatch(ctx, events)`. So a batch is fetched with the context of the CALL THAT TRIGGERED ITS FLUSH (the Add that filled
+   it, or the explicit Flush), time-out flushes with the context given to NewReorderFetcher; what a cancelled context means is up to
+   FetchBatch (its outcome fills the slot like any other outcome, see ReorderErrors above).
+   The layer below is a ghost over the step functions, which are unchanged: every call of the adder script carries a flag
+   (true = its context is already cancelled), c_log lists, for every batch handed out (aligned with `flushed`), the flag FetchBatch
+   receives. Because every batch is fetched exactly once, an outcome that depends on the context received is still a function of
+   the batch as an occurrence, which is what the theorems quantify over (fetchx). *)
+Section ReorderContexts.
+Context {T R : Type}.
+Variable fetch : list T -> list R.
+
+Record rcstate := mkRC {
+  rc : rstate T R;
+  c_calls : list bool;      (* flags of the calls of the script not yet started, parallel to `script` *)
+  c_cur : bool;             (* flag of the adder's call in progress *)
+  c_log : list bool         (* per batch handed out: the flag its FetchBatch receives *)
+}.
+
+Definition c_step (p : rparams) (a : action) (cs : rcstate) : rcstate :=
+  let s := rc cs in
+  let s' := step fetch p a s in
+  (* the adder starts its next call *)
+  let starts := match a, apc s, script s with AAdder, PIdle, _ :: _ => true | _, _, _ => false end in
+  let cur := if starts then hd false (c_calls cs) else c_cur cs in
+  let calls := if starts then tl (c_calls cs) else c_calls cs in
+  (* a batch was taken from the batcher by this action: by the adder (its call's context) or by the time-out goroutine (live) *)
+  let grew := Nat.ltb (length (flushed s)) (length (flushed s')) in
+  let flag := match a with AAdder => cur | _ => false end in
+  mkRC s' calls cur (c_log cs ++ if grew then [flag] else []).
+
+Definition c_run (p : rparams) (acts : list action) (cs : rcstate) : rcstate := fold_left (fun cs a => c_step p a cs) acts cs.
+Definition c_init (sc : list (aop T * bool)) : rcstate := mkRC (r_init (map fst sc)) (map snd sc) false [].
+
+End ReorderContexts.
+Arguments rcstate : clear implicits.
